@@ -619,7 +619,7 @@ impl<'a> Job for RecordJob<'a> {
     fn run<R: KindExt>(&mut self, root: R, base: usize, blen: usize, refs: &dyn Fn() -> Option<usize>) -> Value {
         let mut rng = Rng::new(self.seed);
         let mut s = Sess::new(root, base, blen, self.mh, refs);
-        self.out.push(json!({"ev":"Reset","kind":self.kind,"le":self.le,"mh":self.mh,
+        self.out.push(json!({"ev":"Reset","g":true,"kind":self.kind,"le":self.le,"mh":self.mh,
             "buf":bytes_json(self.data),"p":pj(&s.proj(1), true),"refs":(s.refs)().map(|x| x as i64).unwrap_or(-1)}));
         for _ in 0..self.n {
             let live: Vec<usize> = (1..=self.mh).filter(|h| s.hs[*h].is_some()).collect();
@@ -721,6 +721,249 @@ fn gen_buf(rng: &mut Rng, len: usize) -> Vec<u8> {
         .collect()
 }
 
+// --------------------------------------------------- whole-section parses
+type Secs = Vec<(gimli::SectionId, Vec<u8>)>;
+
+/// A small unit (DIEs with inline / .debug_str strings, blocks, expressions) with a
+/// line program, written by gimli's own writer.
+fn build_dwarf(rng: &mut Rng, version: u16) -> Secs {
+    use gimli::write as w;
+    let enc = gimli::Encoding { version, address_size: 8, format: Format::Dwarf32 };
+    let mut dwarf = w::Dwarf::new();
+    let wd = w::LineString::new(&b"/work/dir"[..], enc, &mut dwarf.line_strings);
+    let sf = w::LineString::new(&b"main.c"[..], enc, &mut dwarf.line_strings);
+    let mut lp = w::LineProgram::new(enc, gimli::LineEncoding::default(), wd, None, sf, None);
+    let dname = w::LineString::new(&b"include"[..], enc, &mut dwarf.line_strings);
+    let dir = lp.add_directory(dname);
+    let fname = w::LineString::new(if rng.chance(1, 2) { &b"util.h"[..] } else { &b"caf\xc3\xa9.h"[..] }, enc, &mut dwarf.line_strings);
+    let file = lp.add_file(fname, dir, None);
+    lp.begin_sequence(Some(w::Address::Constant(0x1000)));
+    let nrows = rng.range(2, 12);
+    for i in 0..nrows {
+        lp.row().address_offset = i * 4 + rng.below(3);
+        lp.row().line = 1 + rng.below(50);
+        if rng.chance(1, 3) {
+            lp.row().file = file;
+        }
+        lp.generate_row();
+    }
+    lp.end_sequence(0x100);
+    let uid = dwarf.units.add(w::Unit::new(enc, lp));
+    let s1 = dwarf.strings.add(&b"producer string"[..]);
+    let s2 = dwarf.strings.add(&b"caf\xc3\xa9"[..]);
+    let unit = dwarf.units.get_mut(uid);
+    let root = unit.root();
+    unit.get_mut(root).set(gimli::DW_AT_name, w::AttributeValue::String(b"main.c".to_vec()));
+    unit.get_mut(root).set(gimli::DW_AT_producer, w::AttributeValue::StringRef(s1));
+    unit.get_mut(root).set(gimli::DW_AT_low_pc, w::AttributeValue::Address(w::Address::Constant(0x1000)));
+    let n = rng.range(2, 10);
+    let mut parent = root;
+    for i in 0..n {
+        let tag = *rng.pick(&[gimli::DW_TAG_subprogram, gimli::DW_TAG_variable, gimli::DW_TAG_base_type]);
+        let id = unit.add(parent, tag);
+        let e = unit.get_mut(id);
+        match rng.below(3) {
+            0 => e.set(gimli::DW_AT_name, w::AttributeValue::String(format!("name{}", i).into_bytes())),
+            1 => e.set(gimli::DW_AT_name, w::AttributeValue::StringRef(s2)),
+            _ => {}
+        }
+        if rng.chance(1, 2) {
+            let mut ex = w::Expression::new();
+            ex.op_addr(w::Address::Constant(0x2000 + i));
+            ex.op_plus_uconst(rng.below(300));
+            if rng.chance(1, 2) {
+                ex.op_implicit_value(vec![1, 2, 3, rng.below(256) as u8].into());
+            }
+            e.set(gimli::DW_AT_location, w::AttributeValue::Exprloc(ex));
+        }
+        if rng.chance(1, 2) {
+            let len = rng.below(70) as usize;
+            let blk: Vec<u8> = (0..len).map(|_| rng.below(256) as u8).collect();
+            e.set(gimli::DW_AT_const_value, w::AttributeValue::Block(blk));
+        }
+        e.set(gimli::DW_AT_decl_line, w::AttributeValue::Udata(rng.below(1000)));
+        if tag == gimli::DW_TAG_subprogram && rng.chance(1, 2) {
+            parent = id;
+        }
+    }
+    let mut sections = w::Sections::new(w::EndianVec::new(RunTimeEndian::Little));
+    dwarf.write(&mut sections).expect("write dwarf");
+    let mut out: Secs = Vec::new();
+    sections
+        .for_each(|id, data| -> Result<(), ()> {
+            out.push((id, data.slice().to_vec()));
+            Ok(())
+        })
+        .unwrap();
+    out
+}
+
+fn variant_name<T: Debug>(x: &T) -> String {
+    let s = format!("{:?}", x);
+    s.split(|c: char| c == '(' || c == ' ' || c == '{').next().unwrap_or("").to_string()
+}
+
+/// Parse everything under reader kind `R`; log every reader the parsers hand back as a
+/// `View` of its section, and a structural dump that must not depend on the kind.
+fn parse_kind<'a, R: Reader<Offset = usize>>(
+    kind: &str,
+    first: bool,
+    group: bool,
+    secs: &'a Secs,
+    make: impl Fn(&'a [u8]) -> (R, usize),
+    out: &mut Vec<Value>,
+) {
+    use gimli::{AttributeValue as AV, SectionId as S};
+    static EMPTY: [u8; 0] = [];
+    let mut roots: Vec<(S, R, usize, usize)> = Vec::new();
+    for (id, d) in secs {
+        let (r, b) = make(d);
+        roots.push((*id, r, b, d.len()));
+    }
+    let dwarf = gimli::Dwarf::load(|id| -> Result<R, gimli::Error> {
+        Ok(match roots.iter().find(|x| x.0 == id) {
+            Some(x) => x.1.clone(),
+            None => make(&EMPTY).0,
+        })
+    })
+    .unwrap();
+    let mut views: Vec<(S, R)> = Vec::new();
+    let mut dump: Vec<Value> = Vec::new();
+    let res = (|| -> gimli::Result<()> {
+        let mut units = dwarf.units();
+        while let Some(h) = units.next()? {
+            let unit = dwarf.unit(h)?;
+            dump.push(json!(["unit", unit.header.version(), unit.header.unit_length()]));
+            let mut entries = unit.entries();
+            while let Some(e) = entries.next_dfs()? {
+                let mut attrs: Vec<Value> = Vec::new();
+                for at in e.attrs() {
+                    let v = at.value();
+                    let (sec, rd): (Option<S>, Option<R>) = match &v {
+                        AV::Block(r) => (Some(S::DebugInfo), Some(r.clone())),
+                        AV::Exprloc(x) => (Some(S::DebugInfo), Some(x.0.clone())),
+                        AV::String(r) => (Some(S::DebugInfo), Some(r.clone())),
+                        AV::DebugStrRef(_) => (Some(S::DebugStr), dwarf.attr_string(&unit, v.clone()).ok()),
+                        AV::DebugLineStrRef(_) => (Some(S::DebugLineStr), dwarf.attr_string(&unit, v.clone()).ok()),
+                        _ => (None, None),
+                    };
+                    let vs = match (&v, &rd) {
+                        (AV::Exprloc(x), _) => {
+                            let mut ops = x.clone().operations(unit.encoding());
+                            let mut names = Vec::new();
+                            while let Some(op) = ops.next()? {
+                                if let gimli::Operation::ImplicitValue { data } = &op {
+                                    views.push((S::DebugInfo, data.clone()));
+                                }
+                                names.push(variant_name(&op));
+                            }
+                            json!(["expr", names])
+                        }
+                        (_, Some(r)) => json!(["reader", variant_name(&v), r.len()]),
+                        _ => json!(format!("{:?}", v)),
+                    };
+                    if let (Some(s), Some(r)) = (sec, rd) {
+                        views.push((s, r));
+                    }
+                    attrs.push(json!([at.name().0, vs]));
+                }
+                dump.push(json!(["die", e.offset().0, e.depth(), e.tag().0, attrs]));
+            }
+            if let Some(lp) = unit.line_program.clone() {
+                let hdr = lp.header().clone();
+                for d in hdr.include_directories() {
+                    if let Ok(r) = dwarf.attr_string(&unit, d.clone()) {
+                        let sec = match d {
+                            AV::String(_) => S::DebugLine,
+                            AV::DebugStrRef(_) => S::DebugStr,
+                            _ => S::DebugLineStr,
+                        };
+                        dump.push(json!(["dir", r.len()]));
+                        views.push((sec, r));
+                    }
+                }
+                for f in hdr.file_names() {
+                    let pn = f.path_name();
+                    if let Ok(r) = dwarf.attr_string(&unit, pn.clone()) {
+                        let sec = match pn {
+                            AV::String(_) => S::DebugLine,
+                            AV::DebugStrRef(_) => S::DebugStr,
+                            _ => S::DebugLineStr,
+                        };
+                        dump.push(json!(["file", r.len(), f.directory_index()]));
+                        views.push((sec, r));
+                    }
+                }
+                let mut rows = lp.rows();
+                while let Some((_, row)) = rows.next_row()? {
+                    dump.push(json!(["row", bv(row.address(), 8), row.line().map(|l| l.get()).unwrap_or(0),
+                        row.file_index(), row.end_sequence()]));
+                }
+            }
+        }
+        Ok(())
+    })();
+    if let Err(e) = res {
+        dump.push(json!(["error", err_name(&e)]));
+    }
+    let mut g = group;
+    for (id, root, base, blen) in roots.iter() {
+        let vs: Vec<&(S, R)> = views.iter().filter(|v| v.0 == *id).collect();
+        if vs.is_empty() {
+            continue;
+        }
+        out.push(json!({"ev":"Section","kind":kind,"sec":id.name(),"buf":bytes_json(&secs.iter().find(|x| x.0 == *id).unwrap().1),"g": g}));
+        g = false;
+        for (_, r) in vs {
+            let (bytes, ptr, borrowed) = match r.to_slice() {
+                Ok(Cow::Borrowed(s)) => (s.to_vec(), rel(s.as_ptr() as usize, *base, *blen), true),
+                Ok(Cow::Owned(v)) => (v, -1, false),
+                Err(_) => (Vec::new(), -1, false),
+            };
+            let off = match catch_unwind(AssertUnwindSafe(|| r.offset_from(root))) {
+                Ok(o) if o <= *blen => o as i64,
+                Ok(_) => -1,
+                Err(_) => -2,
+            };
+            let idpos = root.lookup_offset_id(r.offset_id()).map(|x| x as i64).unwrap_or(-1);
+            out.push(json!({"ev":"View","off":off,"len":r.len(),"bytes":cbytes(&bytes),"ptr":ptr,
+                "idpos":idpos,"borrowed":borrowed}));
+        }
+    }
+    out.push(json!({"ev":"Parse","kind":kind,"first":first,"dump":dump,"g":false}));
+}
+
+fn record_parses(rng: &mut Rng, n: usize, evs: &mut Vec<Value>) {
+    let en = RunTimeEndian::Little;
+    for i in 0..n {
+        let secs = build_dwarf(rng, if i % 2 == 0 { 4 } else { 5 });
+        parse_kind(KINDS[0], true, true, &secs, |d| (EndianSlice::new(d, en), d.as_ptr() as usize), evs);
+        parse_kind(KINDS[1], false, false, &secs, |d| {
+            let rc: Rc<[u8]> = Rc::from(d);
+            let b = rc.as_ptr() as usize;
+            (EndianReader::new(rc, en), b)
+        }, evs);
+        parse_kind(KINDS[2], false, false, &secs, |d| {
+            let rc: Arc<[u8]> = Arc::from(d);
+            let b = rc.as_ptr() as usize;
+            (EndianReader::new(rc, en), b)
+        }, evs);
+        parse_kind(KINDS[3], false, false, &secs, |d| {
+            let sh = Shared(Rc::new(Inner { data: d.to_vec(), freed: Rc::new(Cell::new(0)) }));
+            let b = sh.as_ptr() as usize;
+            (EndianReader::new(sh, en), b)
+        }, evs);
+        parse_kind(KINDS[4], false, false, &secs, |d| {
+            (RelocateReader::new(EndianSlice::new(d, en), Ident), d.as_ptr() as usize)
+        }, evs);
+        parse_kind(KINDS[5], false, false, &secs, |d| {
+            let rc: Rc<[u8]> = Rc::from(d);
+            let b = rc.as_ptr() as usize;
+            (RelocateReader::new(EndianReader::new(rc, en), Ident), b)
+        }, evs);
+    }
+}
+
 fn record(out: &str, a: &Args) {
     let seed = a.num("--seed", 1);
     let n = a.num("--n", 1000) as usize;
@@ -757,6 +1000,15 @@ fn record(out: &str, a: &Args) {
             let td = if td.is_null() { json!([-1, -1]) } else { td };
             evs.push(json!({"ev":"Teardown","kind":KINDS[k],"td":td}));
         }
+    }
+    let np = a.num("--parse", 4) as usize;
+    let r = guarded(|| {
+        record_parses(&mut rng, np, &mut evs);
+        Value::Null
+    });
+    if !r.is_null() {
+        eprintln!("record: {}", r);
+        std::process::exit(3);
     }
     write_lines(out, &evs);
 }
